@@ -184,7 +184,7 @@ def tlc_cases(ctx):
     Returns the list of distinct emitted cases."""
     from concurrent.futures import ThreadPoolExecutor
 
-    sim_n = 60 if ctx.quick else 1500          # behaviours per TLC worker
+    sim_n = 120 if ctx.quick else 1500          # behaviours per TLC worker
     W = max(2, core.NCPU // 2)
     jobs = [
         ("exhaustive", "Optimizer_quick.cfg" if ctx.quick else "Optimizer_thorough.cfg", dict(workers=W, timeout=3000)),
@@ -376,6 +376,28 @@ def signature(m):
     return ([vi(v) for v in m.graph.input], [vi(v) for v in m.graph.output], sorted(v.name for v in m.graph.input if v.name in inits))
 
 
+def scoped_ssa_ok(m):
+    """ONNX's own uniqueness rule: names are unique within a graph and a nested graph does not redefine a name of an enclosing
+    graph; sibling graphs (the two branches of an If) may reuse names.  (Graph.tla SSA is stricter: unique over all nested graphs.)"""
+
+    def g_(g, outer):
+        defs = [i.name for i in g.input] + [i.name for i in g.initializer if i.name not in {x.name for x in g.input}]
+        for n in g.node:
+            defs += [o for o in n.output if o]
+        if len(defs) != len(set(defs)) or (set(defs) & outer):
+            return False
+        scope = outer | set(defs)
+        for n in g.node:
+            for a in n.attribute:
+                if a.type == a.GRAPH and not g_(a.g, scope):
+                    return False
+                if a.type == a.GRAPHS and not all(g_(x, scope) for x in a.graphs):
+                    return False
+        return True
+
+    return g_(m.graph, set())
+
+
 def sig_diff(before, after):
     """names, order, element types must be kept; a shape may be refined but a static dim / the rank may not change"""
     msgs = []
@@ -448,6 +470,7 @@ def replay_case(arg):
             v["ops"] = op_multiset(m2)
         if want_abs:
             v["abs"] = core.abstract_model(f"{idx}/{vn}", m2)
+            v["ssa_scoped"] = scoped_ssa_ok(m2)
         try:
             sess = core.ort_session(m2)
         except Exception as e:  # noqa: BLE001
@@ -504,51 +527,17 @@ def case_guards(case):
         g |= {"overridable_read_as_const", "overridable_default_dropped"}
     if any(o in names_in for o in model["outs"]):
         g.add("graph_input_output_renamed")
-    const = {i["name"]: i["val"] for i in model["inits"]}
-
-    def walk(nodes, const):
-        const = dict(const)
-        prod = {}
-        for n in nodes:
-            if n["op"] == "Constant":
-                const[n["outs"][0]] = n["at"]["val"]
-            for o in n["outs"]:
-                prod[o] = n
-        for n in nodes:
-            if n["op"] in ("Relu", "Clip") and n["ins"] and n["ins"][0] in prod and prod[n["ins"][0]]["op"] in ("Relu", "Clip"):
-                g.add("relu_clip_no_dtype_raise")
-                inner = prod[n["ins"][0]]
-
-                def bound(nd, i):
-                    if nd["op"] == "Clip" and len(nd["ins"]) > i and nd["ins"][i] and nd["ins"][i] in const:
-                        return const[nd["ins"][i]]["data"][0]
-                    return None
-
-                if n["op"] == "Relu" and inner["op"] == "Clip" and bound(inner, 2) is not None and bound(inner, 2) < 0:
-                    g.add("relu_clip_negmax")
-                if n["op"] == "Clip" and inner["op"] == "Clip" and bound(n, 1) is not None and bound(inner, 2) is not None and bound(n, 1) > bound(inner, 2):
-                    g.add("clip_clip_disjoint")
-            for sg in n["sub"]:
-                walk(sg["nodes"], {**const, **{i["name"]: i["val"] for i in sg["inits"]}})
-
-    walk(model["nodes"], const)
     return g
-
-
-def _has_const_if(case):
-    model = case["model"]
-    const = {i["name"] for i in model["inits"]} | {i["name"] for i in model["ins"] if i["kind"] == "ovr"} | {n["outs"][0] for n in model["nodes"] if n["op"] == "Constant"}
-    return any(n["op"] == "If" and n["ins"][0] in const for n in model["nodes"])
 
 
 def attribute(case, v, symptom, detail):
     """deviation id explaining a failure, or None.  symptom: raise | value | run | load | sig | check | wf"""
     g = case_guards(case)
     if symptom == "raise":
-        if "relu_clip_no_dtype_raise" in g and "_fuse_relus_clips" in v["site"] and "NoneType" in detail:
-            return "relu_clip_no_dtype_raise"
-        return None
-    if symptom in ("sig", "check") and v["name"] == "optimize_ir_i1_noinf" and ("element type" in detail or "Field 'type'" in detail) and _has_const_if(case):
+        return None          # no exception of an entry point is known behaviour on the TLC models (relu_clip_no_dtype_raise is fixed)
+    # guard: shape inference disabled (values created by the optimizer are untyped); symptom: a graph output without type / shape
+    if (symptom in ("sig", "check") and (v["name"] == "optimize_ir_i1_noinf" or "cse_output_type_lost" in g)
+            and (("element type" in detail and "-> None" in detail) or "Field 'type'" in detail or "Field 'shape'" in detail)):
         return "cse_output_type_lost"
     if symptom == "sig":
         if "graph_input_output_renamed" in g and "_orig" in detail and "input names" in detail:
@@ -567,10 +556,7 @@ def attribute(case, v, symptom, detail):
     if symptom == "value":
         if v.get("probe") == NPROBE:
             return "overridable_read_as_const" if "overridable_read_as_const" in g else None
-        for d in ("relu_clip_negmax", "clip_clip_disjoint"):
-            if d in g:
-                return d
-        return None
+        return None          # relu_clip_negmax / clip_clip_disjoint are fixed: a wrong value on a plain probe is a violation
     return None
 
 
@@ -878,6 +864,7 @@ def replay_library(arg):
             v["nodes"] = (len(lm.graph.node), len(m2.graph.node))
             if want_abs:
                 v["abs"] = core.abstract_model(f"{rel}/{mode}/{vn}", m2)
+                v["ssa_scoped"] = scoped_ssa_ok(m2)
             try:
                 sess = core.ort_session(m2)
             except Exception as e:  # noqa: BLE001
@@ -957,7 +944,7 @@ def variants_for(ctx, idx):
 def direction_a(ctx, want_abs):
     """TLC cases -> real code.  Returns [(case, observations)]"""
     cases = tlc_cases(ctx)
-    chosen = select_cases(ctx, cases, 1600)
+    chosen = select_cases(ctx, cases, 2600)
     args = [(i, c, variants_for(ctx, i), want_abs) for i, c in enumerate(chosen)]
     res = core.pmap_safe(_replay_case_q, args, timeout=120)
     return list(zip(chosen, res))
@@ -969,7 +956,7 @@ def library_plan(ctx):
     rels = library_models()
     rng = random.Random(ctx.seed + 7)
     if ctx.quick:
-        rels = rng.sample(rels, min(len(rels), 260))
+        rels = rng.sample(rels, min(len(rels), 450))
     plan = []
     for i, rel in enumerate(rels):
         if ctx.quick:
